@@ -517,7 +517,7 @@ def run(ctx):
     ctx.expect_refuted('refute-unnormalised-weights', 'MC_KTable', 'MC_KTable_refute_weights.cfg', 'RefuteUnnormalised')
     for cfg in (['EX_KTable_quick.cfg', 'EX_KTable_quick3.cfg'] if q else ['EX_KTable_thorough.cfg', 'EX_KTable_quick3.cfg']):
         run_vectors(ctx, cfg, cfg[3:-4])
-    log = run_histories(ctx, 6 if q else 40, not q)
+    log = run_histories(ctx, 6 if q else 24, not q)
     run_traces(ctx, 40 if q else 400, extra=log.events)
 
 
